@@ -38,7 +38,9 @@ class ForcePlatformInfo:
         label = BTSString.bread(stream, 256)  # Docs say 32, but it's actually 256
         size = VEC2F.bread(stream)
         position = ForcePlatformVertices.bread(stream)
-        BTSString.bread(stream, 256)  # Undocumented padding
+        # Undocumented padding: BTS leaves arbitrary bytes there, so it is
+        # skipped rather than decoded as text
+        stream.seek(256, 1)
 
         return ForcePlatformInfo(label, size, position)
 
